@@ -62,8 +62,8 @@ Theorem rep_before_fix_refuted : Inv09 (init_term 2 1) /\ nlen (nums rep_witness
   4 * (7 + 1) * scr (init_term 2 1) < iters (snd (rep_c_before_fix (init_term 2 1) (print_cell (init_term 2 1) (last_char rep_witness_p)) (first_or (nums rep_witness_p) 1)))
   /\ iters (snd (csi_final_c (init_term 2 1) rep_witness_p false 98)) = 2.
 Proof. exact rep_before_fix_refuted_l. Qed.
-(* known class hex-macro repeat: `!3000;41;` *)
-Theorem hexmacro_refuted : exists s, zlen s < 64 /\ 300 * zlen s < snd (hex_macro_t s HFirst false [] 0 [] 0).
+(* the former known class hex-macro repeat, the parser BEFORE the fix (hex_macro_t_before_fix: no size limit): `!3000;41;` = 9 bytes, more than 300 x length steps *)
+Theorem hexmacro_before_fix_refuted : exists s, zlen s < 64 /\ 300 * zlen s < snd (hex_macro_t_before_fix s HFirst false [] 0 [] 0).
 Proof. exact hexmacro_refuted_l. Qed.
 (* the former known class macro recursion (repaired by 2513579, MAX_MACRO_NESTING): in the code BEFORE the nesting limit (macro_chars_nolimit,
    Model/Cost.v) a macro that invokes itself replays without end, whatever nesting depth is explored.  After the fix: macro_recursion_bounded below *)
@@ -157,13 +157,27 @@ Proof. exact rqcra_arm_only_l. Qed.
 (* ---- (c) hex-macro repeat groups and macro replay: conditional bounds ------------------------------------------------------------------------------------------------ *)
 (* parse_hex_macro_sequence: characters read + characters appended, and the length of the macro, are at most (1 + largest repeat count) x length;
    hex_reps s HFirst false 0 is the largest repeat count of a group opened in s: the known class `hexmacro-repeat` is exactly a large value of it *)
+(* AFTER THE FIX (MAX_MACRO_SIZE = 65536 characters, Parser::push_repeat_group): UNCONDITIONAL - whatever the repeat counts, the parser reads every character once,
+   appends at most MAX_MACRO_SIZE characters in total (a group that would exceed the limit is refused before anything is appended) and the stored macro holds at most
+   MAX_MACRO_SIZE characters; hex_macro_t IS the parser of the character-level model (tick_version_same_state) *)
 Theorem hexmacro_bound : forall s,
-  snd (hex_macro_t s HFirst false [] 0 [] 0) <= zlen s * (1 + hex_reps s HFirst false 0) /\
-  (forall mac, fst (hex_macro_t s HFirst false [] 0 [] 0) = Some mac -> zlen mac <= zlen s * (1 + hex_reps s HFirst false 0)).
+  0 <= snd (hex_macro_t s HFirst false [] 0 [] 0) <= zlen s + MAX_MACRO_SIZE /\
+  (forall mac, fst (hex_macro_t s HFirst false [] 0 [] 0) = Some mac -> zlen mac <= MAX_MACRO_SIZE).
+Proof. exact hexmacro_bound_fix_l. Qed.
+(* `!2147483647;41;` and `!65537;41;` are refused after reading the group (15 resp. 10 steps, nothing appended); `!3000;41;` still expands (3009 steps) *)
+Theorem hexmacro_refused :
+  hex_macro_t [33; 50; 49; 52; 55; 52; 56; 51; 54; 52; 55; 59; 52; 49; 59] HFirst false [] 0 [] 0 = (None, 15) /\
+  hex_macro_t [33; 54; 53; 53; 51; 55; 59; 52; 49; 59] HFirst false [] 0 [] 0 = (None, 10) /\
+  hex_macro_t [33; 51; 48; 48; 48; 59; 52; 49; 59] HFirst false [] 0 [] 0 = (Some (repeat_str 3000 [65]), 3009).
+Proof. exact hexmacro_refused_l. Qed.
+(* the parser BEFORE the fix (hex_macro_t_before_fix): the former conditional bounds, the former known class being a large value of hex_reps *)
+Theorem hexmacro_bound_before_fix : forall s,
+  snd (hex_macro_t_before_fix s HFirst false [] 0 [] 0) <= zlen s * (1 + hex_reps s HFirst false 0) /\
+  (forall mac, fst (hex_macro_t_before_fix s HFirst false [] 0 [] 0) = Some mac -> zlen mac <= zlen s * (1 + hex_reps s HFirst false 0)).
 Proof. exact hexmacro_bound_l. Qed.
-Theorem hexmacro_bound_cond : forall s B, ~ KnownC03_hexrep s B -> snd (hex_macro_t s HFirst false [] 0 [] 0) <= zlen s * (1 + B).
+Theorem hexmacro_bound_cond_before_fix : forall s B, ~ KnownC03_hexrep s B -> snd (hex_macro_t_before_fix s HFirst false [] 0 [] 0) <= zlen s * (1 + B).
 Proof. exact hexmacro_bound_known_l. Qed.
-Theorem hexmacro_linear : forall s, hex_reps s HFirst false 0 = 0 -> snd (hex_macro_t s HFirst false [] 0 [] 0) <= zlen s.
+Theorem hexmacro_linear_before_fix : forall s, hex_reps s HFirst false 0 = 0 -> snd (hex_macro_t_before_fix s HFirst false [] 0 [] 0) <= zlen s.
 Proof. exact hexmacro_linear_l. Qed.
 (* invoke_macro_by_id, EVERY macro table (recursive or not; the counter of the code bounds the nesting, fuel = MAX_MACRO_NESTING - counter):
    the characters replayed are at most B (1 + c + ... + c^(fuel-1)) for bodies of at most B characters holding at most c invocations each *)
